@@ -114,21 +114,21 @@ Print Assumptions C04_table_nonvacuous.
 
 (* ============ (5) which parts of a query are evaluated in the caller's scope: PreTranslator, create_extractors, extract_vars
    (Model/C04Ext.v: the marking as coded, hand-written and tied node for node to the real PreTranslator on every run;
-    Model/C04Eval.v: an evaluation semantics over Python integers for names, literals, + - *, unary -, not, and/or, comparison
-    chains, conditional expressions) *)
+    Model/C04Eval.v: an evaluation semantics over integers, strings and tuples for names, literals, tuple displays, + - *, unary -,
+    not, and/or, comparison chains, conditional expressions, indexing) *)
 Require Import PonyV.Model.C04Ext PonyV.Model.C04Eval PonyV.Proofs.C04ExtProofs PonyV.Proofs.C04EvalProofs.
 Open Scope nat_scope.
 
 (* soundness of the marking: every external of a well-formed query body - in the context that holds where it stands: the query
    variables ctx plus the parameters of enclosing lambdas - mentions none of those names and contains no lambda, so that evaluating
-   it in the caller's scope is meaningful.  `honest`: no list display / starred argument with an item that mentions such a name
-   (postList / postStarred mark those external unconditionally: known finding, refuted in Findings/C04.v). *)
-Theorem C04_marking_sound_except_known : forall fclass ctx e p c' s,
-  wf e = true -> honest (mark fclass ctx e) = true ->
+   it in the caller's scope is meaningful.  (No side condition since 5e60a83: a list display / starred argument is external only if
+   all its items are.) *)
+Theorem C04_marking_sound : forall fclass ctx e p c' s,
+  wf e = true ->
   In p (externals fclass ctx e) -> sub_ctx ctx e p = Some (c', s) ->
   mentions c' s = false /\ lambda_free s = true.
 Proof. exact externals_sound. Qed.
-Print Assumptions C04_marking_sound_except_known.
+Print Assumptions C04_marking_sound.
 
 (* maximality as far as the code intends it: an expression that mentions no name of the context and contains nothing the marking
    refuses by design (lambda, special function or raw_sql call, empty tuple / f-string / format spec) is external as a whole; unless
@@ -143,13 +143,13 @@ Print Assumptions C04_marking_maximal.
 (* THE FIRST SENTENCE OF THE PROPERTY on the fragment of Model/C04Eval.v: what the extractor of an external s computes - Python's
    eval of the text ast2src prints for s, in the caller's scope - is the value s has in place, under any binding of the query
    variables and lambda parameters c' that agrees with the caller's scope on all other names *)
-Theorem C04_bound_value_except_known : forall fclass ctx e p c' s rho_caller rho_place,
-  wf e = true -> honest (mark fclass ctx e) = true ->
+Theorem C04_bound_value : forall fclass ctx e p c' s rho_caller rho_place,
+  wf e = true ->
   In p (externals fclass ctx e) -> sub_ctx ctx e p = Some (c', s) -> expr_kindb (ekind s) = true ->
   (forall x, mem x c' = false -> rho_caller x = rho_place x) ->
   exists n, forall f, n <= f -> eval_tokens f (print pony_style s) rho_caller = ceval rho_place s.
 Proof. exact bound_value. Qed.
-Print Assumptions C04_bound_value_except_known.
+Print Assumptions C04_bound_value.
 
 (* create_extractors keeps one extractor per source text: two externals with the same tokens are the same tree *)
 Theorem C04_same_text_same_tree : forall s1 s2,
@@ -169,10 +169,13 @@ Theorem C04_varkeys_filters_disjoint : forall fn1 fn2 ck srcs1 srcs2 k, fn1 <> f
 Proof. exact varkeys_filters_disjoint. Qed.
 Print Assumptions C04_varkeys_filters_disjoint.
 
-(* non-vacuity: `p.x == (a - 1) * 2 + b` with a = 2, b = 0 in the caller's scope: one external, (a - 1) * 2 + b, bound as 2 *)
+(* non-vacuity: `p.x == (a - 1) * 2 + b` with a = 2, b = 0 in the caller's scope: one external, (a - 1) * 2 + b, bound as 2;
+   `p.n == (n + 'e', (a, 'x'))[b]` with n = 'Jo': one external, bound as 'Joe' *)
 Example C04_bound_value_nonvacuous :
   externals (fun _ => FPlain) [[112]%Z] demo_query = [[1]] /\ sub_ctx [[112]%Z] demo_query [1] = Some ([[112]%Z], demo_ext) /\
-  wf demo_query = true /\ honest (mark (fun _ => FPlain) [[112]%Z] demo_query) = true /\
-  eval_tokens 40 (print pony_style demo_ext) demo_env = Some 2%Z.
+  wf demo_query = true /\
+  eval_tokens 40 (print pony_style demo_ext) demo_env = Some (VInt 2) /\
+  externals (fun _ => FPlain) [[112]%Z] (Node (LCompare [CEq]) [Node (LAttribute [110]%Z) [nmz 112]; demo_str]) = [[1]] /\
+  eval_tokens 60 (print pony_style demo_str) demo_env = Some (VStr [74; 111; 101]%Z).
 Proof. exact demo_bound. Qed.
 Print Assumptions C04_bound_value_nonvacuous.
